@@ -13,7 +13,8 @@ EXPL = ('(R-WORDALG/c++) the portable C++ routines are proven against the same s
         'x86-64 and AArch64) each routine writes every byte of its output object on every path to every ret, reads every '
         'byte of each input object on some path and nothing outside, and sets the return register on every path when the '
         'C++ prototype returns the carry/borrow; (R-SIBLING/dispatch) each run-time dispatch pointer selects between two '
-        'routines of identical prototype whose footprints agree. The ARMv6-M routines are decided too, on the disassembly of the sources after a mechanical divided-to-unified syntax rewrite (thumbconv.py, trusted).')
+        'routines of identical prototype whose footprints agree. The ARMv6-M routines are decided too, on the disassembly of the sources after a mechanical divided-to-unified syntax rewrite (thumbconv.py, trusted).'
+        ' (R-WORDALG, ARMv6-M) the Thumb routines compute the same specifications (32-bit words; fused routines up to the C++ reduce trampoline) and have the footprints of their C++ twins.')
 
 
 def generic_of(prog_port, f):
